@@ -177,6 +177,9 @@ type Exec struct {
 	assignsReach []Value // everything reachable from these values may be written
 	assignsAny bool
 	noAutoInv  bool
+	staleMemo  map[string]string
+	staleOwn   bool // the contract of the function under verification was ignored as stale
+	extraReveal map[string]bool // predicates revealed by ignored (stale) contracts of inlined callees
 	fixedLen   map[int]*smt.Term // fixed length of sequence-valued spec terms
 	AutoInvs   int      // derived search-loop invariants used
 	LoopsTotal, LoopsTerminating int // loops executed symbolically / of those with a termination argument
